@@ -10,32 +10,32 @@ def hTrig : Handler := fun args impl => do
     ("rt_asin", [oF (dasin (dsin x))]), ("rt_acos", [oF (dacos (dcos x))]),
     ("rt_atan", [oF (datan (dtan x))])]
   let mut fails : List String := []
-  let rad := x * (floatPi / 180.0)
+  let rad := x * (floatPi / F!(180.0))
   let s ← impl.parse "dsin" f64; let c ← impl.parse "dcos" f64; let t ← impl.parse "dtan" f64
-  if !(close s (Float.sin rad) 1e-12) then fails := fails ++ ["dsin_is_sine_of_degrees"]
-  if !(close c (Float.cos rad) 1e-12) then fails := fails ++ ["dcos_is_cosine_of_degrees"]
-  if !(close t (Float.tan rad) 1e-9 || (Float.tan rad).abs > 1e8) then fails := fails ++ ["dtan_is_tangent_of_degrees"]
+  if !(close s (Float.sin rad) F!(1e-12)) then fails := fails ++ ["dsin_is_sine_of_degrees"]
+  if !(close c (Float.cos rad) F!(1e-12)) then fails := fails ++ ["dcos_is_cosine_of_degrees"]
+  if !(close t (Float.tan rad) F!(1e-9) || (Float.tan rad).abs > F!(1e8)) then fails := fails ++ ["dtan_is_tangent_of_degrees"]
   -- inverse functions return degrees: feed them back through Lean's own sine/cosine/tangent
-  if x.abs ≤ 1.0 then
+  if x.abs ≤ F!(1.0) then
     let a ← impl.parse "dasin" f64
-    if !(a.abs ≤ 90.0000001 && close (Float.sin (a * (floatPi / 180.0))) x 1e-9) then
+    if !(a.abs ≤ F!(90.0000001) && close (Float.sin (a * (floatPi / F!(180.0)))) x F!(1e-9)) then
       fails := fails ++ [s!"dasin_returns_degrees:dasin({fmtF x})={fmtF a}"]
     let b ← impl.parse "dacos" f64
-    if !(-1e-7 ≤ b && b ≤ 180.0000001 && close (Float.cos (b * (floatPi / 180.0))) x 1e-9) then
+    if !(-F!(1e-7) ≤ b && b ≤ F!(180.0000001) && close (Float.cos (b * (floatPi / F!(180.0)))) x F!(1e-9)) then
       fails := fails ++ [s!"dacos_returns_degrees:dacos({fmtF x})={fmtF b}"]
   let d ← impl.parse "datan" f64
-  if x.abs ≤ 1e6 then
-    if !(d.abs ≤ 90.0000001 && close (Float.tan (d * (floatPi / 180.0))) x 1e-6) then
+  if x.abs ≤ F!(1e6) then
+    if !(d.abs ≤ F!(90.0000001) && close (Float.tan (d * (floatPi / F!(180.0)))) x F!(1e-6)) then
       fails := fails ++ [s!"datan_returns_degrees:datan({fmtF x})={fmtF d}"]
   -- round trips on the stated intervals (tolerance: conditioning near the interval ends)
-  let tol := 1e-6
-  if -90.0 ≤ x && x ≤ 90.0 then
+  let tol := F!(1e-6)
+  if -F!(90.0) ≤ x && x ≤ F!(90.0) then
     let r ← impl.parse "rt_asin" f64
     if !((r - x).abs ≤ tol) then fails := fails ++ [s!"dasin_dsin_roundtrip:a={fmtF x}:got={fmtF r}"]
-  if 0.0 ≤ x && x ≤ 180.0 then
+  if F!(0.0) ≤ x && x ≤ F!(180.0) then
     let r ← impl.parse "rt_acos" f64
     if !((r - x).abs ≤ tol) then fails := fails ++ [s!"dacos_dcos_roundtrip:a={fmtF x}:got={fmtF r}"]
-  if -89.999 < x && x < 89.999 then
+  if -F!(89.999) < x && x < F!(89.999) then
     let r ← impl.parse "rt_atan" f64
     if !((r - x).abs ≤ tol) then fails := fails ++ [s!"datan_dtan_roundtrip:a={fmtF x}:got={fmtF r}"]
   pure (model, fails)
